@@ -118,6 +118,18 @@ class Hostile(object):
         return [self.sock._fd] if self.sock is not None and not self.sock._closed else []
 
 
+def safe(fn):
+    """a client-side step that fails is an observation (judged against the expectation), not a harness error"""
+    def run():
+        try:
+            return fn()
+        except S.SimAbort:
+            raise
+        except Exception as ex:    # noqa
+            return ("raised", type(ex).__name__)
+    return run
+
+
 def scenario(kind, auth, script, ngood, burst=1, hostile_magic=None):
     """returns a function main() -> observations (run inside the scheduler)"""
     def main():
@@ -130,16 +142,16 @@ def scenario(kind, auth, script, ngood, burst=1, hostile_magic=None):
         goods = [H.Client("g%d" % i, timeout=20) for i in range(ngood)]
         # phase 1: good clients connect and start their work
         for i, g in enumerate(goods):
-            obs["g%d.connect" % i] = g.actor.call(lambda g=g: g.connect(pre), 100)
-            obs["g%d.echo1" % i] = g.actor.call(lambda g=g, i=i: g.call("echo", i), 100)[:2]
-            obs["g%d.put" % i] = g.actor.call(lambda g=g, i=i: g.call("put", "mine-%d" % i), 100)[:2]
+            obs["g%d.connect" % i] = g.actor.call(safe(lambda g=g: g.connect(pre)), 100)
+            obs["g%d.echo1" % i] = g.actor.call(safe(lambda g=g, i=i: g.call("echo", i)), 100)[:2]
+            obs["g%d.put" % i] = g.actor.call(safe(lambda g=g, i=i: g.call("put", "mine-%d" % i)), 100)[:2]
         lent = {}
 
         def take(g, i):
             lent[i] = g.conn.root.lend()
             return ("value", lent[i].who())
         for i, g in enumerate(goods):
-            obs["g%d.lend" % i] = g.actor.call(lambda g=g, i=i: take(g, i), 100)
+            obs["g%d.lend" % i] = g.actor.call(safe(lambda g=g, i=i: take(g, i)), 100)
         # phase 2: the hostile client(s)
         hs = []
         for b in range(burst):
@@ -151,10 +163,10 @@ def scenario(kind, auth, script, ngood, burst=1, hostile_magic=None):
         S.sim_time.sleep(1.0)
         # phase 3: good clients go on; their state and references are their own
         for i, g in enumerate(goods):
-            obs["g%d.echo2" % i] = g.actor.call(lambda g=g, i=i: g.call("echo", 100 + i), 100)[:2]
-            obs["g%d.get" % i] = g.actor.call(lambda g=g: g.call("get"), 100)[:2]
-            obs["g%d.ident" % i] = g.actor.call(lambda g=g: g.call("ident"), 100)[:2]
-            obs["g%d.ref" % i] = g.actor.call(lambda i=i: ("value", lent[i].who()), 100)
+            obs["g%d.echo2" % i] = g.actor.call(safe(lambda g=g, i=i: g.call("echo", 100 + i)), 100)[:2]
+            obs["g%d.get" % i] = g.actor.call(safe(lambda g=g: g.call("get")), 100)[:2]
+            obs["g%d.ident" % i] = g.actor.call(safe(lambda g=g: g.call("ident")), 100)[:2]
+            obs["g%d.ref" % i] = g.actor.call(safe(lambda i=i: ("value", lent[i].who())), 100)
         # an identifier harvested on connection 0 must be refused on connection 1
         if ngood >= 2 and 0 in lent:
             def forge():
@@ -167,12 +179,12 @@ def scenario(kind, auth, script, ngood, burst=1, hostile_magic=None):
                     return ("refused", type(ex).__name__)
                 finally:
                     object.__setattr__(forged, "____refcount__", 0)
-            obs["cross-connection-id"] = goods[1].actor.call(forge, 100)
+            obs["cross-connection-id"] = goods[1].actor.call(safe(forge), 100)
         # phase 4: a NEW client after the hostile one
         n = H.Client("new", timeout=20)
-        obs["new.connect"] = n.actor.call(lambda: n.connect(pre), 100)
-        obs["new.echo"] = n.actor.call(lambda: n.call("echo", "fresh"), 100)[:2]
-        obs["new.get"] = n.actor.call(lambda: n.call("get"), 100)[:2]
+        obs["new.connect"] = n.actor.call(safe(lambda: n.connect(pre)), 100)
+        obs["new.echo"] = n.actor.call(safe(lambda: n.call("echo", "fresh")), 100)[:2]
+        obs["new.get"] = n.actor.call(safe(lambda: n.call("get")), 100)[:2]
         obs["accept-thread-alive"] = st.is_alive()
         obs["instances"] = len(H.Svc.instances)
         lent.clear()
@@ -296,7 +308,7 @@ def all_scripts(tier, auth):
 
 def default_cases(tier):
     out = []
-    for kind in ("threaded", "pool"):
+    for kind in ("threaded", "pool", "forking"):
         for auth in (False, True):
             for name in sorted(all_scripts(tier, auth)):
                 for ngood in (1, 2):
